@@ -12,6 +12,8 @@ mod s_parse;
 mod s_par;
 mod s_api;
 mod s_ctor;
+mod s_hist;
+mod s_scr;
 
 use std::io::{BufRead, Write};
 
@@ -34,6 +36,8 @@ fn run_line(line: &str) -> String {
         "PAR" => s_par::run(&idc, &restc),
         "API" => s_api::run(&idc, &restc),
         "CTOR" => s_ctor::run(&idc, &restc),
+        "HIST" => s_hist::run(&idc, &restc),
+        "SCR" => s_scr::run(&idc, &restc),
         _ => format!("{} unknown-stream", idc),
     });
     match r { Ok(s) => s, Err(_) => format!("{} panic", id) }
@@ -60,6 +64,8 @@ fn main() {
                 "PAR" => s_par::gen(seed, n, &mut out),
                 "API" => s_api::gen(seed, n, &mut out),
                 "CTOR" => s_ctor::gen(seed, n, &mut out),
+                "HIST" => s_hist::gen(seed, n, &mut out),
+                "SCR" => s_scr::gen(seed, n, &mut out),
                 _ => panic!("unknown stream"),
             }
             print!("{}", out);
@@ -77,6 +83,7 @@ fn main() {
                 let (_id, rest) = rest.split_once(' ').unwrap_or((rest, ""));
                 let l = match stream {
                     "ENC" => s_enc::augment(&line, rest),
+                    "HIST" => s_hist::augment(&line, rest),
                     "DLV" => { let (_m, r2) = rest.split_once(' ').unwrap(); s_enc::augment(&line, r2) }
                     "FAIL" => { let t: Vec<&str> = rest.splitn(3, ' ').collect(); s_enc::augment(&line, t[2]) }
                     _ => line.clone(),
